@@ -117,10 +117,10 @@ extend("C20", "arrays above 2^20 samples (mega), one long axis (long_axis: 65537
 # ---- round j
 _FOREIGN = ("objects built in ANOTHER interpreter process (different string-hash salt; vlib/foreign.py) and loaded here from their pickle, "
             "next to constructed / copy / deepcopy / pickle duplicates")
-extend("C01", "kernels of 2^24 .. 2^27.6 elements in both orientations (giant; up to the 12 GB address-space cap).")
+extend("C01", "kernels of 2^24 .. 2^27.3 elements in both orientations (giant; up to the 12 GB address-space cap).")
 extend("C02", "pupils as " + _FOREIGN + ".")
 extend("C03", "planes that were used, then rescaled / resampled / copied / pickled / given new arrays, then used again (used_then_derived); pupils as " + _FOREIGN + ".")
-extend("C05", "kernels of 2^24 .. 2^27.6 elements in both orientations (giant).")
+extend("C05", "kernels of 2^24 .. 2^27.3 elements in both orientations (giant).")
 extend("C07", "neutral starting values held in arrays (all-zero / constant OPD, all-one amplitude), whole-array refills in place and updates through the caller's own arrays in plane_history.")
 extend("C08", "planes, ptype objects and whole start wavefronts as " + _FOREIGN + ".")
 extend("C09", "pupils as " + _FOREIGN + ".")
@@ -152,3 +152,14 @@ extend("C14", "whole unit paths handed to one to(*units) call vs successive call
 extend("C17", "fine scans of the scale factor on one plane, each call compared bit for bit with the same call after an unrelated rescale (scale_scan).")
 extend("C18", "one set of parameter objects (float / numpy scalar / 0-d array) per case, re-used by every call and re-inspected.")
 extend("C19", "image magnitudes down to 1e-24 (totals below machine epsilon as an absolute number); images as masked arrays / ndarray subclasses.")
+
+# ---- round m
+extend("C01", "an input long on one axis onto an output long on the other, both kernels 2^22 .. 2^24.5 elements, 400 spread samples vs the defining sum (both_kernels); arrays in the non-native byte order.")
+extend("C02", "both transform kernels large at once (both_kernels); arrays in the non-native byte order.")
+extend("C04", "trace / dispersion polynomials written with exactly-zero leading coefficients.")
+extend("C06", "collections handed to reduce as one-shot iterables (iter, generator expression, itertools.chain).")
+extend("C09", "scratch buffers whose prior content includes NaN / infinite samples.")
+extend("C10", "one world in three holds every caller array in the non-native byte order.")
+extend("C15", "unsigned / signed integer wavelength grids through append / resample / crop / pad programs (integer_grids).")
+extend("C16", "efficiency spectra whose raw wavelength array equals the cube's in another unit.")
+extend("C20", "drop lists with entries beyond both ends of the segment numbering.")
